@@ -7,7 +7,9 @@ the driver runs; decided witnesses C20_asIs_* / C20_head_* for the defects).
 Tie: harness/c20_harness.cpp runs random histories (<= 25 ops, 3 object slots, valid and invalid arguments, including
 the stacking constructor, fits whose GLAM step fails and writes which hit an I/O error) on
 splinetable<CountingAlloc> built from the working tree, every position of one injected std::bad_alloc and every
-stage of a failing read; after every call the result, the allocator event sequence, the abstract state of every
+stage of a failing read (read_fits, read_fits_mem and the path constructor: damaged real files, the real file cut
+short at and inside every FITS block, every cfitsio call of the reader failing once / for good; the stage such a
+read ends in is worked out by the harness' own restatement of the reader, `ref_walk`); after every call the result, the allocator event sequence, the abstract state of every
 object and the ledger totals must equal what `psvdriver C20` (the same Lean definitions) computes.
 PSV_C20_CFG=repaired (default: /repo with fixes C20-13..16, as it is now) | head (a tree without them) selects the configuration
 on both sides.
@@ -32,10 +34,33 @@ PROBES = [  # (probe, signature when it shows the defect, text)
     ("stack-then-extent", "extent_accessors:crash:null-extents-after-stacking", "s = splinetable({&a,&b,&c},{0,1,2},2); s.lower_extent(0)"),
     ("stack-alloc-failure", "construct_by_stacking:alloc-failure-leak", "splinetable({&a,&b,&c},{0,1,2},2) with std::bad_alloc at each of its allocations in turn"),
     ("write-mem-failure", "write_fits_mem:failed-write-leaks-buffer", "write_fits_mem() with a cfitsio output step reporting an error"),
+    ("read-keyn-transient", "read_fits:null-aux-entry:key-unreadable-in-second-pass", "splinetable t(path) with fits_read_keyn failing for one header key, in the counting pass or in the storing pass of read_fits_core only; then read_key, destruction"),
     ("stack-single-table", "construct_by_stacking:crash:unusable-arguments", "splinetable({&a},{0},2)"),
     ("stack-mismatched-shapes", "construct_by_stacking:crash:unusable-arguments", "splinetable({&b,&a,&b},{0,1,2},2) with a smaller than b"),
     ("stack-empty-table", "construct_by_stacking:crash:unusable-arguments", "splinetable({&a,&e,&a},{0,1,2},2) with e empty"),
 ]
+
+
+READ_CLASS = {1: "unreadable file (garbage / no such file)", 2: "file without ORDERi keys", 3: "file without the KNOTS%(a)d extension", 4: "file whose primary array is empty (NAXIS = 0)",
+              5: "file whose KNOTS%(a)d are not finite and non-decreasing", 6: "file whose KNOTS%(a)d vector has the wrong length", 7: "file without EXTENTS extension",
+              10: "the file cut to its first %(a)d bytes", 11: "cfitsio call number %(a)d of the reader reporting an error", 12: "cfitsio call number %(a)d of the reader and every later one reporting an error"}
+STAGE = {0: "none (the read succeeds)", 1: "before ndim is assigned (open / first HDU / dimension count)", 2: "ORDERi keys", 3: "header or size of a knot vector", 4: "size of the coefficient image",
+         5: "coefficient pixels", 6: "data of a knot vector", 7: "extents data"}
+
+
+def describe_variant(head, hist):
+    """S-line of a variant -> what was injected, in words"""
+    try:
+        _, seq, fail, rfop, rfk, rfa = head.split(); fail, rfop, rfk, rfa = int(fail), int(rfop), int(rfk), int(rfa)
+    except Exception:
+        return ""
+    out = []
+    if fail > 0: out.append("allocation number %d of the history throws std::bad_alloc" % fail)
+    if rfop >= 0: out.append("the read at position %d of the generated history is given: %s" % (rfop, READ_CLASS.get(rfk, "class %d" % rfk) % {"a": rfa}))
+    for h in hist:
+        w = h.split()
+        if w[0] in "FRM" and len(w) > 3 and w[2] != "0": out.append("%s: the reader fails at stage %s = %s" % (OPNAMES[w[0]], w[2], STAGE.get(int(w[2]), "?")))
+    return "; ".join(out)
 
 
 def local_known():
@@ -91,7 +116,11 @@ def run_harness(ctx, exe, tag, first, n, extra_env=None, timeout=1500):
         sup = os.path.join(ctx.scratch, "lsan.supp"); open(sup, "w").write("leak:mem_truncate\nleak:write_fits_mem\n")
         env["LSAN_OPTIONS"] += ":suppressions=" + sup
     if extra_env: env.update(extra_env)
+    if os.path.exists(stats): os.remove(stats)
     rc, out, err = ctx.run([exe, cases, impl, stats, str(first), str(n), d], timeout=timeout, env=env)
+    # LSAN_OPTIONS=exitcode=0 also silences the exit status of an AddressSanitizer / UBSan abort: a run which did not get as
+    # far as writing its statistics (the last thing the harness does) has died, whatever its exit status
+    if rc == 0 and not os.path.exists(stats): rc = 86
     return rc, err, cases, impl, stats
 
 
@@ -284,7 +313,7 @@ def run(ctx, only_seq=None):
                 sig = base + ":" + tags if sv else base
                 report(ctx, sig, {"variant": v["head"], "history": hist, "impl": [i for _, i, _ in (sv or v)["rows"]][-6:],
                                  "replay_cmd": "VERIF_SEED=%d PSV_ONLY='%s' (see bin/props/C20.py shrink)" % (ctx.seed, " ".join(v["head"].split()[1:]))},
-                           "C20 oracle: " + text + " | minimal history: " + " ; ".join(hist))
+                           "C20 oracle: " + text + " | minimal history: " + " ; ".join(hist) + " | " + describe_variant(v["head"], hist))
             for k, c, i, m, why in tie:
                 tie_n += 1
                 ctx.tie_ok = False
@@ -307,17 +336,26 @@ def run(ctx, only_seq=None):
             hist = (history(sv) + [sv["pending"]]) if sv and sv.get("pending") else ((history(last) + [last["pending"] or "?"]) if last else [])
             tags = "".join(h.split()[0] for h in hist)
             report(ctx, sig + ":" + tags, {"variant": last["head"] if last else None, "history": hist, "stderr": err[-2500:], "harness_rc": rc},
-                       "C20: harness aborted (rc=%d) in %s | minimal history: %s | %s" % (rc, sig, " ; ".join(hist), (re.search(r"(ERROR: AddressSanitizer[^\n]*|runtime error[^\n]*)", err) or [""])[0]))
+                       "C20: harness aborted (rc=%d) in %s | minimal history: %s | %s | %s" % (rc, sig, " ; ".join(hist), (re.search(r"(ERROR: AddressSanitizer[^\n]*|runtime error[^\n]*)", err) or [""])[0], describe_variant(last["head"], hist) if last else ""))
         first = int(last["head"].split()[1]) + 1 if last else end
     ctx.coverage["evaluations"] = evals
     ctx.coverage["distinct_nontrivial"] = len(seen)
     ctx.coverage["rule"] = ("histories of 6..25 calls over 3 object slots drawn from VERIF_SEED by harness/c20_harness.cpp; each history is run without fault, with "
-                            "std::bad_alloc injected at every allocation position, and with every read replaced by each failing-read stage; an evaluation is one executed call "
+                            "std::bad_alloc injected at every allocation position, and with every read (read_fits, read_fits_mem, path constructor) of an intact file replaced in turn by: each damaged file (garbage / missing, no ORDERi, empty primary array, per dimension: no KNOTSi, KNOTSi not non-decreasing, KNOTSi of the wrong length; no EXTENTS), the file cut at every FITS block boundary and at a random offset inside every block, and each cfitsio call of the reader reporting an error (once; from then on) - every stage of read_fits_core on the disk and the memory route; an evaluation is one executed call "
                             "compared with the model; non-trivial = the call moved memory through the allocator or threw; distinct = distinct (call line, state of all objects before)")
     ctx.coverage["input_distribution"] = stats_all
     # the failure classes the tie is claimed to cover must actually have been produced
+    if stats_all.get("refwalk_disagrees", 0):
+        ctx.tie_ok = False; ctx.broken.append({"kind": "harness self-check", "why": "ref_walk (the harness' restatement of the reader) disagrees %d time(s) with the stage a damaged file has by construction" % stats_all["refwalk_disagrees"]})
     need = {"op_Y": "stacking constructor calls", "glam_failures": "fits whose GLAM step failed", "write_fits_io_failures": "write_fits calls hitting an I/O error",
-            "write_fits_mem_io_failures": "write_fits_mem calls hitting an I/O error"}
+            "write_fits_mem_io_failures": "write_fits_mem calls hitting an I/O error",
+            "readfail_cut_disk_stage5": "reads of a disk file cut short inside the primary data (failing while the coefficient pixels are read)",
+            "readfail_cut_disk_stage6": "reads of a disk file cut short inside the data of a knot vector",
+            "readfail_cut_mem_stage3": "reads of a memory image cut short"}
+    for route, rname in (("disk", "read_fits"), ("ctor", "the path constructor"), ("mem", "read_fits_mem")):
+        for st in range(1, 8): need["readfail_%s_stage%d" % (route, st)] = "calls of %s failing at stage %d (%s)" % (rname, st, STAGE[st])
+    for cls, cname in (("call", "one cfitsio call failing once"), ("callsticky", "every cfitsio call failing from some call on")):
+        for st in range(1, 8): need["readfail_%s_disk_stage%d" % (cls, st)] = "disk reads with %s, ending at stage %d" % (cname, st)
     for k, what in need.items():
         if crashes == 0 and stats_all.get(k, 0) == 0:
             ctx.tie_ok = False; ctx.broken.append({"kind": "coverage", "why": "no %s were produced by the harness" % what})
@@ -327,6 +365,7 @@ def run(ctx, only_seq=None):
         "model configuration run: Cfg.%s = code with fixes/C20-1..C20-12 and C16-4 applied (C20-11 stands in for the C07 read guard)%s; on a tree without them the oracle reports the defects" % (CFG, " plus the proposed C20-13..15" if CFG == "repaired" else ", stacking constructor as it is in /repo (three known findings: no extents, leak on allocation failure, unusable arguments are undefined behaviour)"),
         "allocation failures are injected only through the Alloc template parameter; plain new[]/malloc temporaries (convolve, permuteDimensions, fit, cfitsio, CHOLMOD) are not failed, their leaks are watched by LeakSanitizer",
         "GLAM failure is injected by redirecting the call of glamfit_complex inside fit() (-Wl,--wrap) to a wrapper returning 1; no input was found that makes the real solver report failure (zero or NaN weights return success)",
+        "failing reads: besides damaged and truncated real files, input failures are injected at the cfitsio entry points read_fits / read_fits_mem / read_fits_core call (ffdkopn, ffomem, ffthdu, ffmahd, ffgidm, ffghsp, ffgky, ffgisz, ffgpxv, ffmnhd, ffclos; the n-th call of the reader reports READ_ERROR, once or from then on); fits_read_keyn (the two loops over the header keys) is not made to fail; the stage at which a read ends is worked out by harness/c20_harness.cpp ref_walk, an independent restatement of the reader as its cfitsio call sequence, checked against the stage the damaged files have by construction (evidence: refwalk_disagrees absent)",
         "output failures are injected at the cfitsio entry points write_fits_core / write_fits(_mem) call (ffcrim, ffppx, ffpky, ffclos), at libc fwrite (ENOSPC) and by a path in a missing directory; what is left on disk is C08's subject",
         "Cfg.head: calls which are undefined behaviour in /repo as it is (convolve / valid permuteDimensions on a table made by the stacking constructor, stacking constructor with unusable arguments) are not executed inside the history runs (result `avoided`, the model must say `crash`); each is executed once in a process of its own (probes); allocation-failure positions inside the stacking constructor are run by a probe only (every one of them leaks)",
         "stacking constructor: inputs are live tables of one shape with 1-2 dimensions and <= 400 coefficients, 2-3 of them (repetition allowed), stackOrder 1-2",
